@@ -139,10 +139,15 @@ class Flows:
         nb = o.get("backends", r.choice([0, 1, 2, 2, 3, 4]))
         bp = o.get("backend_port", 5070)
         self.backends = [s.ip(11 + i) + b":%d" % bp for i in range(nb)]
+        # btcp: the backends are reached over TCP (tcp://ip:port): they accept connections, and what they send arrives on the
+        # connection the proxy opened to them (a stray datagram to their address would be seen, too)
+        self.btcp = bool(o.get("btcp", False))
         for b in self.backends:
             s.udp_ep(b.split(b":")[0], bp)
+            if self.btcp:
+                s.tcp_ln(b.split(b":")[0], bp)
         tcp = 5061 if o.get("tcp", r.random() < 0.3) else 0
-        self.li = s.listen(1, udp=5060, tcp=tcp, backends=self.backends, dyn=o.get("dyn", False),
+        self.li = s.listen(1, udp=5060, tcp=tcp, backends=self.backends, dyn=o.get("dyn", False), btcp=self.btcp,
                            dynport=o.get("dynport"), dyn_first=o.get("dyn_first", False),
                            no_received=o.get("no_received", r.choice([None, None, True, False])),
                            must_rr=o.get("must_rr", r.random() < 0.3))
@@ -194,6 +199,12 @@ class Flows:
         self.nobranch = False      # the next request's top Via carries no branch
 
     # ---- pieces
+    def from_backend(self, ip, port, data):
+        """what a backend sends: a datagram from its address, or bytes on the connection the proxy opened to it"""
+        if self.btcp:
+            return self.s.ev_bdata(ip, int(port), data)
+        return self.s.ev_udp(self.li, (ip, int(port)), data)
+
     def nid(self):
         self.seq += 1
         return self.seq
@@ -392,7 +403,7 @@ class Flows:
         ip, port = b.split(b":")
         data = msg(b"SIP/2.0 %d %s" % (code, r.choice([b"OK", b"Ringing", b"Not Found Here", b"x"])), hs,
                    body_bytes(r) if r.random() < 0.3 else b"")
-        e = s.ev_udp(self.li, (ip, int(port)), data)
+        e = self.from_backend(ip, port, data)
         p["answered_by"] = b
         return e
 
@@ -463,11 +474,11 @@ class Flows:
             b, ua, callid, tb, tu, buri, uuri = (refresh[k] for k in ("answered", "peer", "callid", "ta", "tb", "ua", "ub"))
             bip, bport = b.split(b":")
             frm, to, cseq = b"<" + buri + b">;tag=" + tb, b"<" + uuri + b">;tag=" + tu, refresh["cseq"] + 1
-        via = b"SIP/2.0/UDP " + b + b";branch=z9hG4bK-bs%d" % self.nid()
+        via = (b"SIP/2.0/TCP " if self.btcp else b"SIP/2.0/UDP ") + b + b";branch=z9hG4bK-bs%d" % self.nid()
         ex = [(b"Expires", expires)] if expires is not None else []
         hs = [(b"Via", via), (b"Route", b"<sip:" + ua[0] + b":%d;lr>" % ua[1]), (b"From", frm), (b"To", to), (b"Call-ID", callid),
               (b"CSeq", b"%d SUBSCRIBE" % cseq), (b"Event", b"presence")] + ex
-        e = s.ev_udp(self.li, (bip, int(bport)), msg(b"SUBSCRIBE " + uuri + b" SIP/2.0", hs))
+        e = self.from_backend(bip, bport, msg(b"SUBSCRIBE " + uuri + b" SIP/2.0", hs))
         # the UA's answer: the proxy's Via on top, then the backend's Via as the proxy relayed it (stamped unless no-received)
         echoed = via if l["no_received"] else via + b";received=" + bip
         code = r.choice([200, 200, 202])
@@ -652,7 +663,7 @@ def random_scenario(rng, block, opts=None, n_events=None):
 
 
 # ----------------------------------------------------------------------------- dedicated histories
-def dialog_history(rng, block, n_dialogs=None, n_backends=None, opts=None):
+def dialog_history(rng, block, n_dialogs=None, n_backends=None, opts=None, flows=None):
     """C04: concurrent dialogs over several backends; responses come from a backend address;
     in-dialog requests of every method in both directions; unrelated traffic in between."""
     o = dict(opts or {})
@@ -662,7 +673,7 @@ def dialog_history(rng, block, n_dialogs=None, n_backends=None, opts=None):
     o.setdefault("two_listeners", False)
     o.setdefault("routes", 1)
     o.setdefault("tcphops", False)
-    f = Flows(rng, block, o)
+    f = flows if flows is not None else Flows(rng, block, o)
     s, r = f.s, rng
     nd = n_dialogs or r.randrange(1, 8)
     rot = 0                              # the generator's own guess of the rotation (only used to pick who answers)
@@ -678,6 +689,10 @@ def dialog_history(rng, block, n_dialogs=None, n_backends=None, opts=None):
     while budget > 0:
         budget -= 1
         d = r.choice(dialogs)
+        if f.btcp and r.random() < 0.07:
+            bip, bport = r.choice(f.backends).split(b":")          # a backend closes the connection the proxy has to it
+            s.ev_bclose(bip, int(bport))
+            continue
         k = r.random()
         if k < 0.15:
             f.to_service(method=r.choice([b"OPTIONS", b"MESSAGE", b"REGISTER", b"INVITE"]))       # unrelated, advances the rotation
@@ -751,6 +766,22 @@ def dialog_history(rng, block, n_dialogs=None, n_backends=None, opts=None):
             dialogs.remove(d)
             if not dialogs:
                 break
+    return f
+
+
+def tb_history(rng, block, n_dialogs=None):
+    """backends reached over TCP ("proxytb" cases): a warm-up lets the rotation open a connection to every backend, then a
+    dialog history as above in which the backends answer on those connections, and now and then a backend closes its
+    connection (the next request for it must be sent on a new one)"""
+    r = rng
+    nb = r.randrange(1, 5)
+    o = {"backends": nb, "names": b"svc.example.com", "tcp": False, "two_listeners": False, "routes": r.choice([0, 1]),
+         "tcphops": False, "btcp": True, "keep": False}
+    f = Flows(r, block, o)
+    s = f.s
+    for _ in range(r.randrange(0, 2 * nb + 1)):
+        f.to_service(method=r.choice([b"OPTIONS", b"MESSAGE", b"REGISTER", b"INVITE"]))
+    dialog_history(r, block, n_dialogs=n_dialogs or r.randrange(1, 5), flows=f)
     return f
 
 
